@@ -122,6 +122,7 @@ class SymDA:
         self._name = name
         self._attrs = dict(attrs or {})
         self.mark = mark      # pending element-wise marker ("abs", "abs2")
+        self.view_of = None   # owner of the buffer this array is a view of (slices / transposes / renames share memory)
         n = len(self._dims)
         if n == 2:
             assert same_ext(term.rows, self._ext[self._dims[0]]) and same_ext(term.cols, self._ext[self._dims[1]]), \
@@ -231,12 +232,22 @@ class SymDA:
             raise Unsupported(f"positional index of type {type(k).__name__}")
         return r
 
-    def _new(self, term, dims=None, ext=None, cid=None, cplx=None, lazy=None, mark=None, tags=()):
+    def _new(self, term, dims=None, ext=None, cid=None, cplx=None, lazy=None, mark=None, tags=(), view=False):
         dims = self._dims if dims is None else tuple(dims)
         ext = self._ext if ext is None else ext
         cid = self._cid if cid is None else cid
-        return SymDA(term, dims, ext, {d: cid.get(d) for d in dims}, self.cplx if cplx is None else cplx,
-                     self.lazy if lazy is None else lazy, "fresh", None, self._attrs, mark, tags)
+        r = SymDA(term, dims, ext, {d: cid.get(d) for d in dims}, self.cplx if cplx is None else cplx,
+                  self.lazy if lazy is None else lazy, "fresh", None, self._attrs, mark, tags)
+        if view:
+            r.view_of = self.view_of or (self.owner if self.owner != "fresh" else None)
+        return r
+
+    def _inplace(self, what, result):
+        """in-place arithmetic writes into the buffer: a mutation event if that buffer belongs to someone else"""
+        src = self.owner if self.owner != "fresh" else self.view_of
+        if src:
+            ctx().events.append(("mutate", f"in-place {what} on {'a view of ' if self.owner == 'fresh' else ''}{src} object {self._name!r}"))
+        return result
 
     def copy(self, deep=True):
         r = self._new(self.term, mark=self.mark, tags=self.tags)
@@ -278,7 +289,7 @@ class SymDA:
         cid[d] = ("prefix", self._cid.get(d), new.name)
         if isinstance(self._cid.get(d), tuple) and self._cid[d][0] == "range":
             cid[d] = ("range", self._cid[d][1], new.name)
-        return self._new(t, None, ext, cid, tags=self.tags & {"desc", "asc", "nonneg"})
+        return self._new(t, None, ext, cid, tags=self.tags & {"desc", "asc", "nonneg"}, view=True)
 
     def conj(self):
         return self._new(tm.conj(self.term)) if self.cplx else self
@@ -298,7 +309,7 @@ class SymDA:
             raise ValueError(f"{dims} must be a permuted list of {self._dims}")
         if tuple(dims) == self._dims:
             return self
-        return self._new(tm.Tr(self.term), dims)
+        return self._new(tm.Tr(self.term), dims, view=True)
 
     @property
     def T(self):
@@ -306,7 +317,7 @@ class SymDA:
 
     def rename(self, m=None, **kw):
         if m is not None and not isinstance(m, dict):
-            r = self._new(self.term, mark=self.mark)
+            r = self._new(self.term, mark=self.mark, tags=self.tags, view=True)
             r._name = m
             return r
         m = dict(m or {}, **kw)
@@ -318,7 +329,7 @@ class SymDA:
             raise ValueError("rename would create duplicate dimensions")
         ext = {m.get(d, d): e for d, e in self._ext.items()}
         cid = {m.get(d, d): c for d, c in self._cid.items()}
-        r = self._new(self.term, dims, ext, cid, mark=self.mark, tags=self.tags)
+        r = self._new(self.term, dims, ext, cid, mark=self.mark, tags=self.tags, view=True)
         r._name = self._name
         return r
 
@@ -329,7 +340,7 @@ class SymDA:
             if d not in self._dims:
                 raise Unsupported("assign_coords for a non-dimension coordinate")
             cid[d] = self._coord_id_of(d, v)
-        r = self._new(self.term, None, None, cid, mark=self.mark, tags=self.tags)
+        r = self._new(self.term, None, None, cid, mark=self.mark, tags=self.tags, view=True)
         r._name = self._name
         return r
 
@@ -512,9 +523,9 @@ class SymDA:
 
     def __mul__(self, o): return self._bin_mul(o)
     def __rmul__(self, o): return self._bin_mul(o)
-    __imul__ = __mul__
+    def __imul__(self, o): return self._inplace("*=", self._bin_mul(o))
     def __truediv__(self, o): return self._bin_mul(o, inverse=True)
-    __itruediv__ = __truediv__
+    def __itruediv__(self, o): return self._inplace("/=", self._bin_mul(o, inverse=True))
 
     def __rtruediv__(self, o):
         if isinstance(o, (int, float)) and type(o) is not bool or type(o) is PNum:
@@ -535,6 +546,8 @@ class SymDA:
 
     def __add__(self, o): return self._bin_add(o)
     def __sub__(self, o): return self._bin_add(o, -1)
+    def __iadd__(self, o): return self._inplace("+=", self._bin_add(o))
+    def __isub__(self, o): return self._inplace("-=", self._bin_add(o, -1))
     def __neg__(self): return self._new(tm.neg(self.term))
 
     def __pow__(self, k):
